@@ -23,6 +23,19 @@ fn scene_of(path: &PathSpec, st: &StyleSpec) -> Scene {
 fn norm_piece(p: &Polyline) -> Vec<P2> {
     let mut v = p.pts.clone();
     v.dedup_by(|a, b| dist(*a, *b) < 1e-4);
+    // an interior vertex lying on the straight line between its neighbours (a piece cut in two
+    // and re-joined, a vertex repeated along a segment) does not change the piece
+    let mut i = 1;
+    while i + 1 < v.len() {
+        let (a, b, c) = (v[i - 1], v[i], v[i + 1]);
+        let cross = (b.0 - a.0) * (c.1 - a.1) - (b.1 - a.1) * (c.0 - a.0);
+        let dot = (b.0 - a.0) * (c.0 - b.0) + (b.1 - a.1) * (c.1 - b.1);
+        if cross.abs() <= 1e-6 * (dist(a, b) * dist(b, c)).max(1e-12) && dot > 0.0 {
+            v.remove(i);
+        } else {
+            i += 1;
+        }
+    }
     v
 }
 
